@@ -19,7 +19,9 @@ RULE = ("caption sets of 1-2 languages x 1-6 sorted, non-overlapping captions (T
         "with generated options; output parsed by the independent parser of the format under a "
         "strict lexical pattern. (ms-sweep) every millisecond of [0,2min) (thorough [0,2h)) and "
         "+-2s around each hour boundary through SRT/WebVTT/DFXP. Non-trivial: some instant >= 1 "
-        "minute, or not a whole millisecond, or a run of identical timespans, or a float time.")
+        "minute, or not a whole millisecond, or a run of identical timespans, or a float time. "
+        'In a quarter of the cases the writer object has written another set before; for '
+        'every writer except SAMI captions may also be shuffled and overlapping. ')
 ASSUMPTIONS = [
     "float (SCC-reader) instants within 1 us of a millisecond/frame boundary are not judged "
     "(timedelta rounds to the nearest microsecond before the writers truncate)",
